@@ -81,7 +81,7 @@ func c20DoHTTP(rd c20Read) (status int, body []byte, errStr string) {
 	code := w.Code
 	// a panic recovered after the handler had started its answer cannot change the status any
 	// more: the server's "Panic detected" report is then found inside a 2xx body
-	if code < 500 && bytes.Contains(w.Body.Bytes(), []byte("Panic detected on request")) {
+	if panicInBody(code, w.Body.Bytes()) != "" {
 		code = 598
 	}
 	return code, w.Body.Bytes(), ""
@@ -136,6 +136,15 @@ var goroutineHdr = regexp.MustCompile(`^goroutine \d+ \[([^\],]+)`)
 // busyGoroutines counts goroutines that run DVID datatype / datastore / storage code and
 // are not parked (running, runnable, sleeping, in a syscall or waiting for I/O or a lock).
 func busyGoroutines() (busy int, total int, sample string) {
+	busy, total, sample, _, _ = busyGoroutinesX()
+	return
+}
+
+var goroutineID = regexp.MustCompile(`^goroutine (\d+) `)
+
+// busyGoroutinesX also reports how many of the busy goroutines wait for a lock or a wait group
+// (nothing of the request's work is running when all of them do) and the ids of the busy ones.
+func busyGoroutinesX() (busy int, total int, sample string, blocked int, ids []string) {
 	buf := make([]byte, 1<<20)
 	for {
 		n := runtime.Stack(buf, true)
@@ -172,6 +181,13 @@ func busyGoroutines() (busy int, total int, sample string) {
 			continue
 		}
 		busy++
+		switch state {
+		case "semacquire", "sync.Mutex.Lock", "sync.RWMutex.Lock", "sync.RWMutex.RLock", "sync.WaitGroup.Wait":
+			blocked++
+		}
+		if m := goroutineID.FindStringSubmatch(s); m != nil {
+			ids = append(ids, m[1])
+		}
 		if sample == "" {
 			if len(s) > 1500 {
 				s = s[:1500]
@@ -196,11 +212,12 @@ func callC20Settle(args json.RawMessage) (interface{}, error) {
 	sleep := 200 * time.Microsecond
 	last := -1
 	stable := 0
-	var busy, total int
+	var busy, total, blocked int
 	var sample string
+	var ids []string
 	for {
 		runtime.Gosched()
-		busy, total, sample = busyGoroutines()
+		busy, total, sample, blocked, ids = busyGoroutinesX()
 		if busy == 0 && total == last {
 			stable++
 		} else {
@@ -224,5 +241,6 @@ func callC20Settle(args json.RawMessage) (interface{}, error) {
 		runtime.ReadMemStats(&ms)
 	}
 	return map[string]interface{}{"busy": busy, "goroutines": total, "settled": stable >= 2, "sample": sample,
+		"all_blocked": busy > 0 && blocked == busy, "busy_ids": strings.Join(ids, ","),
 		"heap_inuse_mb": ms.HeapInuse >> 20, "heap_sys_mb": ms.HeapSys >> 20}, nil
 }
